@@ -14,6 +14,18 @@ def fuzz(workers, runs, **kw):
 NOT_CLAIMED = {}
 
 PROPS = {
+    "C20": dict(
+        level="exploration",
+        technique="property-based testing (rapidcheck tape generator + libFuzzer) of generated resource tables x filters against an independent RFC 6690 printer/filter, with exhaustive (offset, buffer length) window enumeration per table",
+        level_text="Generated tables and filters; the full listing must equal an independent RFC 6690 listing as a set of links, and every window "
+                   "(exhaustively for listings up to 96 bytes, boundary families beyond) must be the exact slice with exact total and TRUNC flag. "
+                   "Exact-size heap strings make filter overreads ASan reports. The block-wise GET clause is decided in the simulated network (see evidence counters).",
+        level_note="Trusted base: ref/reflink.h (printer, quote-aware parser, RFC 6690 4.1 filter). Out of domain (memory safety only): filter without '=', "
+                   "attribute values that start with '\"' but are not complete quoted strings, patterns containing spaces.",
+        quick=rc(8, 2500),
+        thorough=rc(14, 60000) + fuzz(2, 60000, max_len=260),
+        assumptions=["order of links and of parameters is not constrained (hash / list order)"],
+    ),
     "C16": dict(
         level="exploration",
         technique="grammar-based property testing + libFuzzer on URI/path/query text in exact-size heap buffers under ASan; differential against an independent RFC 3986/7252 splitter; left-inverse (injectivity) and round-trip oracles for coap_get_uri_path/coap_get_query",
